@@ -442,3 +442,59 @@ Lemma model_passes_spec_okb_l k cmds es :
   spec_run_sel (fun e => negb (core e)) cmds [] (repeat snode0 (nn k)) es = true -> spec_okb k cmds es = true.
 Proof. intros Hs Hg Hm Ha. unfold spec_okb. destruct (forallb in_premise cmds) eqn:Hp; [|reflexivity].
   rewrite spec_run_split, Ha, (model_passes_monitor_l k cmds es Hp Hs Hg Hm). reflexivity. Qed.
+
+(* ---------- soundness: the Prop-level reading of an accepted trace ---------- *)
+(* `lg` is the committed sequence (command numbers) and `sn` the monitor's bookkeeping per replica (next position, positions
+   applied so far, snapshot labels), both folded from the trace by spec_step *)
+Definition prefix_between (cmds : list logop) (lg : list N) (a : nat) (l : list pin) : Prop :=
+  exists m, (a <= m < a + S (length lg - a))%nat /\ l = map snd (replay (firstn m (map (cmd_of cmds) lg))).
+
+Definition event_spec (cmds : list logop) (lg : list N) (sn : list snode) (e : oevent) : Prop :=
+  let ops := map (cmd_of cmds) lg in
+  match e with
+  | OApply n j => s_applied (sgetn (nn n) sn) = nn j /\ (nn j < length lg)%nat      (* the next entry of the one sequence *)
+  | OCrash _ _ => False                                                              (* no replica crashes *)
+  | ORestore _ _ _ lbl => (nn lbl <= length lg)%nat
+  | OAck c n => exists j, (j < s_applied (sgetn (nn n) sn))%nat /\ nth_error lg j = Some c   (* acknowledged: committed and applied on the committer *)
+  | OObs n o => exists l, o = Some l /\ prefix_between cmds lg (s_applied (sgetn (nn n) sn)) l
+  | OTrk n cs => Permutation (map proj_call (expected_calls ops (s_hist (sgetn (nn n) sn)))) (map proj_call cs)
+  | OOffline n l => l = map snd (match rev (s_labels (sgetn (nn n) sn)) with [] => [] | lb :: _ => replay (firstn lb ops) end)
+  | ORecovered _ m0 o => exists l, o = Some l /\ prefix_between cmds lg (nn m0) l
+  | OReady n m0 _ o => exists l, o = Some l /\ prefix_between cmds lg (Nat.max (s_applied (sgetn (nn n) sn)) (nn m0)) l
+  | _ => True
+  end.
+Fixpoint trace_spec (cmds : list logop) (lg : list N) (sn : list snode) (es : list oevent) : Prop :=
+  match es with
+  | [] => True
+  | e :: r => event_spec cmds lg sn e /\
+              trace_spec cmds (fst (fst (spec_step cmds lg sn e))) (snd (fst (spec_step cmds lg sn e))) r
+  end.
+
+Lemma existsb_prefix cmds lg a l :
+  existsb (fun m => pins_eqb (map snd (replay (firstn m (map (cmd_of cmds) lg)))) l) (seq a (S (length lg - a))) = true ->
+  prefix_between cmds lg a l.
+Proof. intros H. apply existsb_exists in H. destruct H as [m [Hm He]]. apply in_seq in Hm. apply pins_eqb_sound in He.
+  exists m. split; [lia|now symmetry]. Qed.
+
+Lemma event_sound cmds lg sn e : snd (spec_step cmds lg sn e) = true -> event_spec cmds lg sn e.
+Proof. destruct e as [c|n j|n j|n okk|n|n src kk lbl|n|c n|n o|n cs|n l|n m0 o|n m0 q o]; cbn [spec_step snd event_spec]; cbv zeta; intros H; auto.
+  - apply andb_true_iff in H. destruct H as [H1 H2]. apply Nat.eqb_eq in H1. apply Nat.ltb_lt in H2. auto.
+  - discriminate.
+  - now apply Nat.leb_le.
+  - apply existsb_exists in H. destruct H as [j [Hj He]]. apply in_seq in Hj. apply N.eqb_eq in He. exists j. split; [lia|].
+    rewrite <- He. apply nth_error_nth'. lia.
+  - destruct o as [l|]; [|discriminate]. exists l. split; auto. now apply existsb_prefix.
+  - now apply multiset_eqb_perm.
+  - destruct (rev (s_labels (sgetn (nn n) sn))) as [|lb r]; [destruct l; [reflexivity|discriminate]|].
+    apply pins_eqb_sound in H. now symmetry.
+  - destruct o as [l|]; [|discriminate]. exists l. split; auto. now apply existsb_prefix.
+  - destruct o as [l|]; [|discriminate]. exists l. split; auto. now apply existsb_prefix. Qed.
+
+Lemma spec_run_sound cmds : forall es lg sn, spec_run cmds lg sn es = true -> trace_spec cmds lg sn es.
+Proof. induction es as [|e r IH]; intros lg sn H; [exact I|]. cbn [spec_run] in H. cbn [trace_spec].
+  destruct (spec_step cmds lg sn e) as [[lg' sn'] ok] eqn:E. apply andb_true_iff in H. destruct H as [-> H].
+  split; [apply event_sound; now rewrite E|cbn [fst snd]; now apply IH]. Qed.
+
+Lemma monitor_sound_l k cmds es : forallb in_premise cmds = true -> spec_okb k cmds es = true ->
+  trace_spec cmds [] (repeat snode0 (nn k)) es.
+Proof. intros Hp H. unfold spec_okb in H. rewrite Hp in H. now apply spec_run_sound. Qed.
